@@ -151,6 +151,9 @@ func (e *Exec) execBlocks(fr *frame, b *ssa.BasicBlock) Value {
 		var next *ssa.BasicBlock
 		for _, in := range b.Instrs[len(phis):] {
 			e.path.steps++
+			if forkStats != nil {
+				e.curLoc = fr.fn.Name() + ":" + fr.fn.Prog.Fset.Position(in.Pos()).String()
+			}
 			if e.path.steps > 2000000 {
 				panic(engineErr("step budget exceeded"))
 			}
